@@ -13,7 +13,7 @@ META = dict(
          "silence, leader move), retry budgets 0/1/3, flush settings, idempotent on/off, hook-gated injections of fresh input into the "
          "retry window and Close at intermediate steps are executed on the real producer; TLC validates every recorded trace: each "
          "submitted message gets exactly one terminal event, no event for anything not submitted, Close returns and both channels close.",
-    note="bounded model; real executions are a finite sample of schedules (steered by broker holds and hook gates); simulated "
+    note="conducted replay: TLC behaviours in hook normal form (every internal action recorded) are followed step by step by the real goroutines, parked at the hook points by a conductor that fails open (followed/diverged counts in the evidence); bounded model; real executions are a finite sample of schedules (steered by broker holds and hook gates); simulated "
          "cluster + driver trusted; SyncProducer: SendMessage from concurrent goroutines and SendMessages batches over the fault kinds (return values validated as outcomes)",
     design_ref="6/C01",
 )
